@@ -856,12 +856,12 @@ func gSymbolRanges(c *Ctx, rule string) {
 						if firstEmit != nil && lastEmit != firstEmit {
 							fromSrc = nil // From taken after more than one emission
 						}
-						if lastEmit != nil && lastEmit.Res != nd.Src {
+						if lastEmit != nil && lastEmit.Res != nd.Src && lastEmit.ResAlso != nd.Src {
 							fromSrc = nil
 						}
 					} else {
 						toSrc = nd.Src
-						if lastEmit == nil || lastEmit.Res != nd.Src {
+						if lastEmit == nil || lastEmit.Res != nd.Src && lastEmit.ResAlso != nd.Src {
 							toSrc = nil
 						}
 					}
